@@ -186,6 +186,20 @@ class Reader:
                     if isinstance(v, ast.Call) and A.callee_attr(v) == "get" and isinstance(v.func, ast.Attribute) and \
                             isinstance(v.func.value, ast.Name) and v.func.value.id == "file":
                         names.add(n.targets[0].id)        # g = file.get(path)
+        # d[k] for k in ('a', 'b', ...): a loop / comprehension variable ranging over a literal table of keys reads each of them
+        for root in nodes:
+            for n in ast.walk(root):
+                gens = n.generators if isinstance(n, (ast.DictComp, ast.ListComp, ast.GeneratorExp, ast.SetComp)) else ([n] if isinstance(n, ast.For) else [])
+                for g in gens:
+                    tgt, it = (g.target, g.iter)
+                    if isinstance(tgt, ast.Name) and isinstance(it, (ast.Tuple, ast.List)) and it.elts \
+                            and all(isinstance(e, ast.Constant) and isinstance(e.value, str) for e in it.elts):
+                        for x in ast.walk(n):
+                            if isinstance(x, ast.Subscript) and isinstance(x.ctx, ast.Load) and isinstance(x.value, ast.Name) and x.value.id in names \
+                                    and isinstance(x.slice, ast.Name) and x.slice.id == tgt.id:
+                                for e in it.elts:
+                                    self.required.setdefault(e.value, x)
+                                    self.valueread.add(e.value)
         for root in nodes:
             for n in ast.walk(root):
                 if isinstance(n, ast.Subscript) and isinstance(n.ctx, ast.Load) and isinstance(n.value, ast.Name) \
@@ -442,19 +456,63 @@ def _neutralised(chk, f, written):
 
 def conversions(chk, wf, rf, w):
     chk.rule("Z4", "each conversion applied by Tensor.to_dict (level>=1) has its inverse on the same key in from_dict", floor=5)
-    wt = A.text(wf.node)
-    rt = A.text(rf.node)
+    def sub_key(e, key):
+        """`<dict>['key']`"""
+        return isinstance(e, ast.Subscript) and const_key(e.slice) == key
+
+    def comp_over(n, pred_iter, pred_elt):
+        """a comprehension / generator over an iterable satisfying pred_iter whose element satisfies pred_elt(elt, loop variable)"""
+        return isinstance(n, (ast.GeneratorExp, ast.ListComp)) and len(n.generators) == 1 and isinstance(n.generators[0].target, ast.Name) \
+            and pred_iter(n.generators[0].iter) and pred_elt(n.elt, n.generators[0].target.id)
+
+    def attr_call(e, attr, on=None):
+        return isinstance(e, ast.Call) and isinstance(e.func, ast.Attribute) and e.func.attr == attr and (on is None or on(e.func.value))
+
+    def is_name(e, v):
+        return isinstance(e, ast.Name) and e.id == v
+
+    def ends(e, suffix):
+        return A.text(e).endswith(suffix)
+
+    def splat_call(e, fname, star, arg_pred):
+        """fname(*X) / fname(**X) with arg_pred(X)"""
+        if not (isinstance(e, ast.Call) and (A.call_name(e) or "").split(".")[-1] == fname):
+            return False
+        if star == "**":
+            return any(k.arg is None and arg_pred(k.value) for k in e.keywords)
+        return any(isinstance(a_, ast.Starred) and arg_pred(a_.value) for a_ in e.args)
+
+    def id_store(n, key, idattr):
+        """config['sym'] = config['sym'].SYM_ID"""
+        return isinstance(n, ast.Assign) and len(n.targets) == 1 and sub_key(n.targets[0], key) and isinstance(n.value, ast.Attribute) \
+            and n.value.attr == idattr and sub_key(n.value.value, key) and A.text(n.value.value.value) == A.text(n.targets[0].value)
+    W = list(ast.walk(wf.node))
+    Rn = list(ast.walk(rf.node))
     table = [
-        ("config", "a.config._asdict()", "make_config(**d['config'])", "config NamedTuple <-> dict"),
-        ("config.sym", "config['sym'] = config['sym'].SYM_ID", "make_config(", "symmetry class <-> SYM_ID (resolved by make_config)"),
-        ("config.backend", "config['backend'] = config['backend'].BACKEND_ID", "make_config(", "backend module <-> BACKEND_ID"),
-        ("hfs", "hf._asdict() for hf in a.hfs", "_Fusion(**hf) for hf in d['hfs']", "_Fusion <-> dict"),
-        ("struct", "a.struct._asdict()", "_struct(**d['struct'])", "_struct <-> dict"),
-        ("slices", "tuple(slc) for slc in a.slices", "_slc(*x) for x in d['slices']", "_slc <-> tuple"),
-        ("data", "backend.to_numpy(a.data)", "backend.to_tensor(d['data']", "backend array <-> numpy"),
+        ("config", "<tensor>.config._asdict()", "make_config(**d['config'])", "config NamedTuple <-> dict",
+         any(attr_call(n, "_asdict", lambda v: ends(v, ".config")) for n in W),
+         any(splat_call(n, "make_config", "**", lambda x: sub_key(x, "config")) for n in Rn)),
+        ("config.sym", "config['sym'] = config['sym'].SYM_ID", "make_config(**d['config'])", "symmetry class <-> SYM_ID (resolved by make_config)",
+         any(id_store(n, "sym", "SYM_ID") for n in W),
+         any(splat_call(n, "make_config", "**", lambda x: sub_key(x, "config")) for n in Rn)),
+        ("config.backend", "config['backend'] = config['backend'].BACKEND_ID", "make_config(**d['config'])", "backend module <-> BACKEND_ID",
+         any(id_store(n, "backend", "BACKEND_ID") for n in W),
+         any(splat_call(n, "make_config", "**", lambda x: sub_key(x, "config")) for n in Rn)),
+        ("hfs", "x._asdict() for x in <tensor>.hfs", "_Fusion(**x) for x in d['hfs']", "_Fusion <-> dict",
+         any(comp_over(n, lambda it: ends(it, ".hfs"), lambda el, v: attr_call(el, "_asdict", lambda r: is_name(r, v))) for n in W),
+         any(comp_over(n, lambda it: sub_key(it, "hfs"), lambda el, v: splat_call(el, "_Fusion", "**", lambda x: is_name(x, v))) for n in Rn)),
+        ("struct", "<tensor>.struct._asdict()", "_struct(**d['struct'])", "_struct <-> dict",
+         any(attr_call(n, "_asdict", lambda v: ends(v, ".struct")) for n in W),
+         any(splat_call(n, "_struct", "**", lambda x: sub_key(x, "struct")) for n in Rn)),
+        ("slices", "tuple(x) for x in <tensor>.slices", "_slc(*x) for x in d['slices']", "_slc <-> tuple",
+         any(comp_over(n, lambda it: ends(it, ".slices"), lambda el, v: isinstance(el, ast.Call) and A.call_name(el) == "tuple" and len(el.args) == 1 and is_name(el.args[0], v))
+             or (isinstance(n, ast.Call) and A.call_name(n) == "map" and len(n.args) == 2 and is_name(n.args[0], "tuple") and ends(n.args[1], ".slices")) for n in W),
+         any(comp_over(n, lambda it: sub_key(it, "slices"), lambda el, v: splat_call(el, "_slc", "*", lambda x: is_name(x, v))) for n in Rn)),
+        ("data", "backend.to_numpy(<tensor>.data)", "backend.to_tensor(d['data'], ...)", "backend array <-> numpy",
+         any(attr_call(n, "to_numpy") and n.args and (ends(n.args[0], ".data") or ends(n.args[0], "._data")) for n in W),
+         any(attr_call(n, "to_tensor") and n.args and sub_key(n.args[0], "data") for n in Rn)),
     ]
-    for key, wpat, rpat, what in table:
-        wi, ri = wpat in wt, rpat in rt
+    for key, wpat, rpat, what, wi, ri in table:
         if wi and ri:
             chk.ok("Z4", wf, f"{key}: {what}", {"writer": wpat, "reader": rpat})
         elif wi and not ri:
